@@ -7,8 +7,11 @@ Import ListNotations.
 Local Open Scope string_scope.
 Local Open Scope Z_scope.
 
-(* net/rcon.go: type RCONConn struct (embedded fields have the empty name) *)
-Definition expected_conn_fields : list (string * string) := [("", "net.Conn"); ("ReqID", "int32")].
+(* net/rcon.go: type RCONConn struct (field name, declared type) *)
+Definition expected_conn_fields : list (string * string) := [("Conn", "embedded net.Conn"); ("ReqID", "int32")].
+
+(* net/rcon.go: type RCONListener struct (field name, declared type) *)
+Definition expected_listener_fields : list (string * string) := [("Listener", "embedded net.Listener")].
 
 (* net/rcon.go: RCONConn.ReadPacket *)
 Definition expected_ReadPacket : rfunc :=
@@ -132,17 +135,17 @@ Definition expected_DialRCON : rfunc :=
 Definition expected_ListenRCON : rfunc :=
   {| f_conn := "l"; f_params := [("addr", "string")]; f_results := [("", "*RCONListener"); ("", "error")];
      f_body := [
-      SOther "l,err := net.Listen('tcp',addr)";
+      SListen "l" "'tcp',addr";
       SIf (XNilCmp CNe (XVar "err")) [
-        SOther "return nil,err" ] [];
-      SOther "return &RCONListener{Listener:l},nil" ] |}.
+        SReturn [XNil; (XVar "err")] ] [];
+      SReturn [(XNew "RCONListener" [("Listener", "l")]); XNil] ] |}.
 
 (* net/rcon.go: RCONListener.Accept *)
 Definition expected_Accept : rfunc :=
   {| f_conn := "r"; f_params := []; f_results := [("", "RCONServerConn"); ("", "error")];
      f_body := [
-      SOther "conn,err := r.Listener.Accept()";
+      SAcceptConn "conn" "r";
       SIf (XNilCmp CNe (XVar "err")) [
-        SOther "return nil,err" ] [];
-      SOther "return &RCONConn{Conn:conn},nil" ] |}.
+        SReturn [XNil; (XVar "err")] ] [];
+      SReturn [(XNew "RCONConn" [("Conn", "conn")]); XNil] ] |}.
 
